@@ -89,7 +89,16 @@ extern "C" int sqlite3_step(sqlite3_stmt* stmt)
             if (sql_ctl.fault_kind == 2) sql_ctl.interrupt_now = true;
         }
     }
+    if (sql_ctl.interrupt_now)
+    {
+        // F2: poll the progress handler at every VM instruction for this one step, so that even a short statement is interrupted inside SQLite
+        sqlite3* db = sqlite3_db_handle(stmt);
+        sqlite3_progress_handler(db, 1, progress_cb, nullptr);
+        int rc2 = real(stmt);
+        sqlite3_progress_handler(db, 1000, progress_cb, nullptr);
+        if (sql_ctl.interrupt_now) { sql_ctl.interrupt_now = false; --sql_ctl.faults_delivered; }  // the statement finished before the handler was polled
+        return rc2;
+    }
     int rc = real(stmt);
-    sql_ctl.interrupt_now = false;
     return rc;
 }
